@@ -809,9 +809,9 @@ fn first_difference(a: &[String], b: &[String]) -> String {
 pub fn run_c13(ctx: &Ctx) -> i32 {
     let spec = Spec {
         level: "exploration",
-        rule: "cases: (a) a depth-limited script (2..7 position/go depth 3..6 commands on middlegames) run in N separate processes of the real binary — each draws its own random hash keys — must give byte-identical transcripts once the time and nps fields are removed; (b) in-process, K fresh searchers (K key sets) must agree on (score, move, node count) for each (position, depth); (c) the transcript of a script after 'prefix; ucinewgame' (prefix: searches, time-limited searches, long position histories, games from the start position that repeat positions two or three times; the script often starts with a bare go, which searches the start position) must equal its transcript in a fresh process. Distinct by script / (position, depth); all non-trivial (every case compares at least two executions)",
+        rule: "cases: (a) a depth-limited script (2..7 position/go depth 3..6 commands on middlegames) run in N separate processes of the real binary — each draws its own random hash keys — must give byte-identical transcripts once the time and nps fields are removed; (b) in-process, K fresh searchers (K key sets) must agree on (score, move, node count) for each (position, depth); (c) the transcript of a script after 'prefix; ucinewgame' (prefix: searches, time-limited searches, long position histories, games from the start position that repeat positions two or three times; the script often starts with a bare go, which searches the start position) must equal its transcript in a fresh process; (c') after 1..24 quick searches and ucinewgame, a whole game searched move after move (12..20 searches at depth 4..5) must equal the same game in a fresh process. Distinct by script / (position, depth); all non-trivial (every case compares at least two executions)",
         assumptions: vec!["key sets not drawn in this run are not covered".into(), "only depth-limited searches are compared (time-limited ones legitimately depend on the machine)".into()],
-        required: if ctx.replay.is_some() { vec![] } else { vec!["scripts_compared_across_processes", "process_pairs_compared", "key_set_groups_compared", "ucinewgame_scripts_compared", "ucinewgame_scripts_starting_with_bare_go", "ucinewgame_scripts_resuming_the_previous_game_line", "soak_scripts_compared"] },
+        required: if ctx.replay.is_some() { vec![] } else { vec!["scripts_compared_across_processes", "process_pairs_compared", "key_set_groups_compared", "ucinewgame_scripts_compared", "ucinewgame_scripts_starting_with_bare_go", "ucinewgame_scripts_resuming_the_previous_game_line", "soak_scripts_compared", "ucinewgame_then_a_whole_game_compared"] },
         exhaustive: false,
         extra: vec![],
     };
@@ -996,6 +996,53 @@ pub fn run_c13(ctx: &Ctx) -> i32 {
                 (Err(e), _) | (_, Err(e)) => st.inconclusive.push(format!("C13 script failed: {}", e)),
             }
         }
+        // (c') a whole game after ucinewgame: k quick searches (k = 1..24, so any per-process counter
+        // is left in an arbitrary phase), ucinewgame, then one game searched move after move for a
+        // dozen moves — state that survives ucinewgame may take several searches to show
+        for _ in 0..(if ctx.quick() { 1 } else { 6 }) {
+            let k = rng.range(1, 24) as usize;
+            let mut full: Vec<String> = vec![];
+            let (_, pm) = gen::playout(&Pos::start(), &mut rng, k + 2);
+            for i in 0..k.min(pm.len()) {
+                let mv: Vec<String> = pm[..=i].iter().map(|m| m.uci()).collect();
+                full.push(format!("position startpos moves {}", mv.join(" ")));
+                full.push(format!("go depth {}", 1 + i % 2));
+            }
+            full.push("ucinewgame".into());
+            let from = full.len();
+            let (ps, ms) = gen::playout(&Pos::start(), &mut rng, 40);
+            let start_at = rng.range(0, 6) as usize;
+            let mut suffix = vec![];
+            for i in start_at..ms.len().min(start_at + if ctx.quick() { 12 } else { 20 }) {
+                if ps[i].legal_moves().is_empty() {
+                    break;
+                }
+                let mv: Vec<String> = ms[..i].iter().map(|m| m.uci()).collect();
+                suffix.push(if mv.is_empty() { "position startpos".to_string() } else { format!("position startpos moves {}", mv.join(" ")) });
+                suffix.push(format!("go depth {}", if ps[i].piece_count() <= 24 { 5 } else { 4 }));
+            }
+            if suffix.is_empty() {
+                continue;
+            }
+            full.extend(suffix.iter().cloned());
+            let case = J::obj(vec![("kind", J::s("ucinewgame")), ("commands", J::arr_s(full.clone())), ("compare_from", J::i(from as i64))]);
+            st.case(hash64(&full), true);
+            st.sample_tagged("ucinewgame_game", || case.clone());
+            match (transcript(ctx, &full, from), transcript(ctx, &suffix, 0)) {
+                (Ok(a), Ok(b)) => {
+                    st.bump("ucinewgame_then_a_whole_game_compared");
+                    st.add("searches_before_ucinewgame_in_those", k as u64);
+                    if a != b {
+                        st.violation(
+                            format!("C13:ucinewgame-game:{}", hash64(&full)),
+                            format!("after {} searches and ucinewgame, a game searched move after move ({} searches) does not behave as in a fresh process: {}", k, suffix.len() / 2, first_difference(&a, &b)),
+                            case,
+                        );
+                    }
+                }
+                (Err(e), _) | (_, Err(e)) => st.inconclusive.push(format!("C13 script failed: {}", e)),
+            }
+        }
         // (b) key sets in-process
         for k in 0..(n_keys / ctx.workers as u64 + 1) {
             if k >= 1 && ctx.out_of_time() {
@@ -1086,6 +1133,8 @@ struct Script {
     expect: Vec<Expect>,
     ends_with_quit: bool,
     ends_mid_line: bool,
+    /// position commands that repeat or extend the previous game line with a ucinewgame in between
+    continued_across_newgame: u64,
 }
 
 fn c16_script(rng: &mut Rng) -> Script {
@@ -1107,6 +1156,17 @@ fn c16_script(rng: &mut Rng) -> Script {
         bytes.extend_from_slice(nl);
         shown.push(String::from_utf8_lossy(line).chars().take(80).collect());
     };
+    // half of the streams carry a running game
+    let game_session = rng.chance(1, 2);
+    let line_from_fen = rng.chance(1, 3);
+    let line_start = if line_from_fen { gen::g_game_pos(rng) } else { Pos::start() };
+    let line: Vec<String> = gen::playout(&line_start, rng, 24).1.iter().map(|m| m.uci()).collect();
+    let mut line_k = rng.below(4) as usize;
+    line_k = line_k.min(line.len());
+    let mut line_sent = false;
+    let mut newgame_since_line = false;
+    let mut continued_across_newgame = 0u64;
+    let mut since_newgame_line: Option<()> = None;
     for _ in 0..n {
         match rng.below(12) {
             0 | 1 => {
@@ -1117,13 +1177,36 @@ fn c16_script(rng: &mut Rng) -> Script {
                 push(&mut bytes, &mut shown, b"isready", rng);
                 expect.push(Expect::Ready);
             }
-            5 => push(&mut bytes, &mut shown, b"ucinewgame", rng),
+            5 => {
+                push(&mut bytes, &mut shown, b"ucinewgame", rng);
+                newgame_since_line = true;
+            }
             6 => {
                 let m = rng.range(0, 30) as usize;
                 let (_, ms) = gen::playout(&Pos::start(), rng, m);
                 let mv: Vec<String> = ms.iter().map(|m| m.uci()).collect();
                 let cmd = if mv.is_empty() { "position startpos".to_string() } else { format!("position startpos moves {}", mv.join(" ")) };
                 push(&mut bytes, &mut shown, cmd.as_bytes(), rng);
+                since_newgame_line = None;
+            }
+            9 | 10 if game_session => {
+                // the session's own game line, as a GUI sends it: the same set-up with a move list
+                // that grows (sometimes stays, sometimes shrinks by a take-back), also across ucinewgame
+                let k_new = match rng.below(6) {
+                    0 => line_k,
+                    1 => line_k.saturating_sub(rng.range(1, 2) as usize),
+                    _ => (line_k + rng.range(1, 3) as usize).min(line.len()),
+                };
+                if newgame_since_line && k_new >= line_k && line_sent {
+                    continued_across_newgame += 1;
+                }
+                line_k = k_new;
+                line_sent = true;
+                newgame_since_line = false;
+                let head = if line_from_fen { format!("position fen {}", line_start.to_fen()) } else { "position startpos".to_string() };
+                let cmd = if line_k == 0 { head } else { format!("{} moves {}", head, line[..line_k].join(" ")) };
+                push(&mut bytes, &mut shown, cmd.as_bytes(), rng);
+                let _ = &since_newgame_line;
             }
             7 => {
                 let p = gen::g_game_pos(rng);
@@ -1160,7 +1243,7 @@ fn c16_script(rng: &mut Rng) -> Script {
             ends_mid_line = true;
         }
     }
-    Script { bytes, shown, expect, ends_with_quit, ends_mid_line }
+    Script { bytes, shown, expect, ends_with_quit, ends_mid_line, continued_across_newgame }
 }
 
 /// Match the transcript against the protocol model; Err describes the first deviation.
@@ -1223,6 +1306,7 @@ fn c16_judge(ctx: &Ctx, sc: &Script, st: &mut Stats, trace: Option<&PathBuf>, si
         }
     };
     st.bump("sessions");
+    st.add("game_lines_continued_across_ucinewgame", sc.continued_across_newgame);
     st.bump(if sc.ends_with_quit { "streams_ending_with_quit" } else if sc.ends_mid_line { "streams_ending_mid_line" } else { "streams_ending_at_end_of_input" });
     st.add("answers_expected", sc.expect.len() as u64);
     if let Some(n) = r.eof_reads {
@@ -1273,9 +1357,9 @@ fn unhex(s: &str) -> Vec<u8> {
 pub fn run_c16(ctx: &Ctx) -> i32 {
     let spec = Spec {
         level: "exploration",
-        rule: "a case is one input stream fed to a fresh process of the real binary: 0..25 lines drawn from uci / isready / ucinewgame / position / go depth 1 / junk (blank, whitespace, tabs, 20 kB lines, unicode, invalid UTF-8, near-miss command words, GUI-to-engine words this engine does not implement), with optional surrounding blanks and CRLF endings, ending with quit (possibly followed by more lines), at end of input after a full line, or in the middle of a silent line. The transcript must match the protocol model (id lines + uciok per uci, readyok per isready, info* + bestmove per go, nothing else), the exit status must be 0, and after the end of input the process may read fd 0 only a few more times: strace counts zero-length reads and 10 of them with the process still running is the violation witness (an event count, not a timeout). Distinct by input bytes; non-trivial when the stream expects at least one answer or ends without quit",
+        rule: "a case is one input stream fed to a fresh process of the real binary: 0..25 lines drawn from uci / isready / ucinewgame / position (unrelated games, and in half of the streams a running game line whose move list grows, stays or shrinks from one position command to the next, also across ucinewgame) / go depth 1 / junk (blank, whitespace, tabs, 20 kB lines, unicode, invalid UTF-8, near-miss command words, GUI-to-engine words this engine does not implement), with optional surrounding blanks and CRLF endings, ending with quit (possibly followed by more lines), at end of input after a full line, or in the middle of a silent line. The transcript must match the protocol model (id lines + uciok per uci, readyok per isready, info* + bestmove per go, nothing else), the exit status must be 0, and after the end of input the process may read fd 0 only a few more times: strace counts zero-length reads and 10 of them with the process still running is the violation witness (an event count, not a timeout). Distinct by input bytes; non-trivial when the stream expects at least one answer or ends without quit",
         assumptions: vec!["junk never contains a recognised command word as a separate token, so 'ignore the unknown token and parse the rest' engines and 'ignore the whole line' engines agree on every stream sent".into(), "strace -e trace=read,exit_group observes the engine's system calls; when strace cannot attach the fallback witness is CPU burnt while alive after end of input".into()],
-        required: if ctx.replay.is_some() { vec![] } else { vec!["streams_ending_with_quit", "streams_ending_mid_line", "streams_ending_at_end_of_input", "answers_expected", "end_of_input_observed_under_strace"] },
+        required: if ctx.replay.is_some() { vec![] } else { vec!["streams_ending_with_quit", "streams_ending_mid_line", "streams_ending_at_end_of_input", "answers_expected", "end_of_input_observed_under_strace", "game_lines_continued_across_ucinewgame"] },
         exhaustive: false,
         extra: vec![],
     };
@@ -1305,7 +1389,7 @@ pub fn run_c16(ctx: &Ctx) -> i32 {
                 }
             }
             let _ = text;
-            let sc = Script { bytes: bytes.clone(), shown: vec![], expect, ends_with_quit: quit, ends_mid_line: complete_until < bytes.len() };
+            let sc = Script { bytes: bytes.clone(), shown: vec![], expect, ends_with_quit: quit, ends_mid_line: complete_until < bytes.len(), continued_across_newgame: 0 };
             st.case(hash64(&bytes), true);
             let tf = tdir.join("replay.trace");
             c16_judge(ctx, &sc, &mut st, if use_strace { Some(&tf) } else { None }, "");
@@ -1324,7 +1408,7 @@ pub fn run_c16(ctx: &Ctx) -> i32 {
             let mut sc = c16_script(&mut rng);
             if w == 0 && i == 0 {
                 // the original finding's input, in every run: handshake then plain end of input
-                sc = Script { bytes: b"uci\nisready\n".to_vec(), shown: vec!["uci".into(), "isready".into()], expect: vec![Expect::Uci, Expect::Ready], ends_with_quit: false, ends_mid_line: false };
+                sc = Script { bytes: b"uci\nisready\n".to_vec(), shown: vec!["uci".into(), "isready".into()], expect: vec![Expect::Uci, Expect::Ready], ends_with_quit: false, ends_mid_line: false, continued_across_newgame: 0 };
             }
             // quit in the middle cuts the expectations: only those before quit were generated, since
             // quit is always the last meaningful line of a generated stream
